@@ -294,7 +294,8 @@ def reclassify(bad, orig, overwrite, confine, stub=None):
         if key.startswith("result-does-not-run:NameError") and body_copied_verbatim(names) and "(TypedDict" in (stub or ""):
             key = "typeddict-class-body-name-unresolved-after-apply"
         if key == "second-application-changes-text" and confine and all(
-                re.match(r"^[+-]\s*(from \S+ import .*|import .*|if TYPE_CHECKING:|)$", x.strip()) for x in text.split(";")):
+                re.match(r"^[+-]\s*(from \S+ import .*|import .*|if TYPE_CHECKING:|pass|)$", x.strip()) for x in text.split(";")) and (
+                    "pass" not in text or "if TYPE_CHECKING:" in text):  # (a block left empty says `pass`)
             key = "second-application-under-confinement-touches-imports"
         out.append((key, text))
     return out
